@@ -17,7 +17,7 @@ ANCHORS = ["src/pylife/strength/woehler_fkm_nonlinear.py", "src/pylife/strength/
            "src/pylife/strength/fkm_nonlinear/constants.py"]
 SHARDS = {"quick": 4, "thorough": 16}
 WATCHDOG = {"quick": 900, "thorough": 3000}
-REQUIRED_CLASSES = {t: ["curve:P_RAM", "curve:P_RAJ", "curve:P_RAJ_endurance_value_updated", "table_index:labels_repeat(concatenated_passes)",
+REQUIRED_CLASSES = {t: ["curve:P_RAM", "curve:P_RAJ", "curve:P_RAJ_endurance_value_updated", "curve:calc_N_with_explicit_limit_then_default", "table_index:labels_repeat(concatenated_passes)",
                         "table_index:labelled_by_pass", "table_index:multiindex", "pram:S_m<0", "pram:S_m>=0", "pram:negative_product",
                         "table:half_hystereses", "table:early_failure", "table:no_pass1_rows", "table:below_endurance_rows",
                         "table:zero_damage_pass2", "beta:P_A<=0.5", "gamma:normal", "gamma:lognormal", "gamma:blanket",
@@ -146,6 +146,18 @@ def _curves(case, ctx, rng):
         if not (np.all(np.isinf(Nb)) and _close(Na, (above / PZ) ** (1 / d)) and _close(float(wj.fatigue_strength_limit_final), cur, 1e-15)):
             ok, bad = False, {"endurance_value": cur, "initial": PD, "N_above": Na, "N_at_and_below": Nb}
     ctx.check("curve:infinite_at_and_below_endurance", ok, observed=bad, detail="P_RAJ after update_P_RAJ_D")
+    # the optional P_RAJ_D argument of calc_N is a one-off limit: it must not stay with the curve
+    ctx.tag("curve:calc_N_with_explicit_limit_then_default")
+    probe = PD * np.array([0.7, 1.2, 1.8, 3.0])
+    before = np.asarray(wj.calc_N(probe), dtype=float)
+    once_hi = np.asarray(wj.calc_N(probe, P_RAJ_D=PD * 2.0), dtype=float)
+    once_lo = np.asarray(wj.calc_N(probe, P_RAJ_D=PD * 0.5), dtype=float)
+    after = np.asarray(wj.calc_N(probe), dtype=float)
+    exp_hi = np.where(probe > PD * 2.0, (probe / PZ) ** (1 / d), np.inf)
+    exp_lo = np.where(probe > PD * 0.5, (probe / PZ) ** (1 / d), np.inf)
+    ctx.check("curve:infinite_at_and_below_endurance", _close(before, after) and _close(once_hi, exp_hi) and _close(once_lo, exp_lo)
+              and _close(float(wj.fatigue_strength_limit_final), PD, 1e-15),
+              observed={"before": before, "after": after, "with_2PD": once_hi, "with_PD/2": once_lo}, detail="explicit P_RAJ_D argument of calc_N")
     ctx.check("curve:continuous_at_endurance_knee", _close(float(np.asarray(wj.calc_P_RAJ(NDj * (1 - 1e-9)))), PD, 1e-7)
               and _close(float(np.asarray(wj.calc_P_RAJ(NDj * 2))), PD, 1e-15) and _close(float(wj.fatigue_life_limit), NDj, 1e-12),
               observed=float(np.asarray(wj.calc_P_RAJ(NDj * (1 - 1e-9)))), expected=PD, detail="P_RAJ")
